@@ -506,6 +506,15 @@ def rule_selflen(rep, d, S):
                         bt = ir.qtype(b[0]) if b else "this"
                         if "xbasic_fixed_string" in bt or not b:
                             own.append((a, ir.sx(b[0]) if b else ("this",)))
+            if not own and k == "CXXOperatorCallExpr" and ir.sx(n)[0] == "bin" and ir.sx(n)[1] == "<<":
+                # a stream insertion of the string converted by its own conversion operator (which is a site of this rule itself)
+                conv = [x for a in args for x in ir.walk_expr(a) if x.get("kind") == "CXXMemberCallExpr" and ir.ekids(x) and
+                        ir.strip(ir.ekids(x)[0]).get("kind") == "MemberExpr" and (ir.strip(ir.ekids(x)[0]).get("name") or "").startswith("operator ") and
+                        "basic_string" in ir.qtype(x) and ir.ekids(ir.strip(ir.ekids(x)[0])) and "xbasic_fixed_string" in ir.qtype(ir.ekids(ir.strip(ir.ekids(x)[0]))[0])]
+                if conv:
+                    n_sites += 1
+                    rep.holds(R, lab, "`%s`" % d.text(n)[:60].replace("\n", " "), where=d.where(n), detail="inserted through the string's own conversion to std::basic_string")
+                continue
             if not own:
                 continue
             is_string_sink = (k in ("CXXConstructExpr", "CXXTemporaryObjectExpr") and "basic_string" in ir.qtype(n) and "xbasic_fixed_string" not in ir.qtype(n)) or \
@@ -566,6 +575,11 @@ def rule_order(rep, d, S):
                 return None if v is None else -v
             if t[0] == "call" and t[1][0] == "mem" and t[1][2] == "compare" and len(t) == 3:
                 a, b = t[1][1], t[2]
+                while b[0] == "cast":
+                    b = b[3]
+                if b[0] == "call" and b[1][0] == "mem" and b[1][2] in ("c_str", "data") and len(b) == 2 and b[1][1] in (("ref", l), ("ref", r)) and \
+                        sig(f)[(l, r).index(b[1][1][1])] == "S":
+                    b = b[1][1]          # a std::string operand passed on as its C string (what the pointer overloads of the operators do too)
                 if a == ("ref", l) and b == ("ref", r):
                     return c
                 if a == ("ref", r) and b == ("ref", l):
@@ -817,6 +831,7 @@ def rule_deleg(rep, S):
     R = "C01.deleg"
     d = S.d
     n = 0
+    access = fs.member_access(S.cls)
     for fn in S.fns:
         b = ir.body(fn)
         ks = ir.kids(b) if b else []
@@ -835,6 +850,12 @@ def rule_deleg(rep, S):
         t = ir.sx(e)
         args = t[2:]
         if callee not in allowed:
+            tg_ = fs.member_target(d, e)
+            if tg_ is not None and ir.has_body(tg_) and access.get(tg_.get("id"), "public") != "public" and callee not in FAMILIES:
+                # the body of this overload lives in a non-public helper of the class: it is a worker, not a forwarding overload;
+                # the helper is analysed like every other member
+                rep.holds(R, lab, "forwards to its own worker", where=d.where(e), detail="implemented by the non-public helper `%s`" % callee, nontrivial=False)
+                continue
             rep.violates(R, lab, "forwards to its own worker", where=d.where(e), detail="`%s` forwards to `%s(...)`; the overloads of %s must share the worker of the same name" % (own, callee, own))
             continue
         problems = []
